@@ -42,9 +42,13 @@ CLAIMED["C01"] = dict(
          "Every packet carries an identity; an online ledger checks launched == requested == terminated exactly "
          "once with a legal cause, the code's own counter, task/packet ownership, bounded liveness (no progress "
          "event for the step budget, second half under a fair policy), that source buffers are filled by one "
-         "task at a time and within capacity, and that no buffer, task, queue entry or "
-         "outgoing buffer survives an iteration. Sampling: evidence, not proof.",
-    note="pool/queue capacities generated above any possible need (the property's premise); sequential "
+         "task at a time and within capacity, that a subgrid lock is held by the thread that runs a traversal task "
+         "on it and is released by the thread that holds it, and that no buffer, task, queue entry or "
+         "outgoing buffer survives an iteration. A third of the multi-thread runs repeat the case with the buffer "
+         "and task pools cut down to (twice, 1.25 times or just above) the occupancy measured in a first run, so "
+         "that slots are reused while other threads still hold references; an exhaustion guard ends such a run as "
+         "inconclusive before a pool can run out. Sampling: evidence, not proof.",
+    note="pool/queue capacities otherwise generated above any possible need (the property's premise); sequential "
          "consistency at AtomicValue granularity; runs that still make progress after the total point cap "
          "are abandoned as inconclusive and counted",
     technique="deterministic simulation: seeded fiber scheduler + packet-identity ledger over recorded history",
@@ -143,10 +147,12 @@ CLAIMED["C09"] = dict(
          "over all hydro/ionization variables, step sizes, time, has-next), every later dump byte-identical to A's "
          "outside the timer block and the re-seeded random seed field; a dump per run is read through the same "
          "restart constructors the driver uses and written again (identical bytes).",
-    note="components reachable from the task-based RHD dump with the options generated (timers, parameter file, "
-         "grid creator, hydro subgrids, cell variables, SingleStar source distribution, live output counter, time "
-         "line); mask, turbulence forcing and the other source distributions are not generated yet and are named "
-         "here as not covered",
+    note="components reachable from the task-based RHD dump with the options generated: timers, parameter file, "
+         "grid creator, hydro subgrids, cell variables, hydro mask, turbulence forcing, six source distributions "
+         "(SingleStar, AsciiFile, UniformRandom, SingleSupernova with feedback, DiscPatch, Caproni; the three that "
+         "keep a source log with and without it), live output counters, point-mass gravity, time line, snapshot "
+         "and radiation counters. Radiation is off (the property is about pure hydrodynamics); restartable classes "
+         "the task-based RHD dump never contains are not covered",
     technique="deterministic simulation: stop/restart fault injection (simulated clock, signal, stop file) with bitwise history comparison",
     engine="E-RHD", design_ref="6/C09")
 
@@ -155,7 +161,8 @@ CLAIMED["C12"] = dict(
     text="Whole task-based ionization and RHD runs from generated parameter files (run modes and optional "
          "components widened: writers, initial snapshot, temperature calculation, trackers, task plot; radiation "
          "in RHD, radiative cooling, external gravity, hydro mask, turbulence forcing, live output with all "
-         "calculator combinations, restart dumps and a stop + restart) built with AddressSanitizer + "
+         "calculator combinations, source logs, subgrid copies, --task-plot-rhd, restart dumps and a stop + restart "
+         "with the same or another number of threads) built with AddressSanitizer + "
          "UndefinedBehaviorSanitizer and executed inside the simulator, so that which slot/buffer/task is reused by "
          "whom is decided by seeded schedules; stack and heap pre-filled with 0xA5 so that uninitialised reads are "
          "hostile and reproducible; plus a heap-perturbation part (same case twice with malloc fill 0x00 / 0xA5 must "
